@@ -197,6 +197,25 @@ func structField(t types.Type, name string) (int, bool) {
 // evalLoc evaluates an expression denoting a memory location.
 // shifted returns the environment in which the operand of old(...) / prev(...) is evaluated.
 func (e *Env) shifted(x *SExpr) *Env {
+	if strings.HasPrefix(x.Name, "entry") {
+		// state and variable values when loop N was first entered
+		n := int(x.Name[5] - '0')
+		var li *loopInfo
+		for _, l := range e.a.loops {
+			if l.ord == n {
+				li = l
+			}
+		}
+		if li == nil || li.stEntry == nil {
+			e.fail("%s(): loop %d has not been entered at this point", x.Name, n)
+			return nil
+		}
+		ne := e.a.headerEnv(li, li.entryPhis, li.stEntry)
+		for k, v := range e.vars {
+			ne.vars[k] = v
+		}
+		return ne
+	}
 	if x.Name == "prev" {
 		if e.prev == nil {
 			e.fail("prev() is only available in body-end assertions")
